@@ -106,6 +106,10 @@ class BlockData:
             b.previous.next = b.next
         if b.next is not None:
             b.next.previous = b.previous
+        if b is self.__root and b.next is not None:
+            self.__root = b.next
+        if b is self.__head and b.previous is not None:
+            self.__head = b.previous
 
     def of_type(self, t: Type[T]) -> Generator[T, None, None]:
         """
